@@ -1288,6 +1288,7 @@ Lemma deferred_ok : forall s,
 Proof.
   intros s HR HB Hfm HX. unfold deferred_lost_segment_handling. rewrite b_gp.
   destruct (p_deferred (d_p s)); cbn [negb]; [|split; assumption].
+  rewrite b_gp. destruct (p_disp (d_p s) =? DISP_CANCELED); [split; assumption|].
   destruct (ri_busy _ HR HB) as (Hrc & _).
   unfold rcfg_or_assert. rewrite bind_assoc, b_gp. destruct (p_rcfg (d_p s)) as [r|]; [|contradiction Hrc; reflexivity].
   rewrite b_ret, b_gp.
@@ -2108,6 +2109,7 @@ Qed.
 Lemma deferred_eof_none : forall s, p_file_size_eof (d_p s) = None -> fst (deferred_lost_segment_handling s) = s.
 Proof.
   intros s He. unfold deferred_lost_segment_handling. rewrite b_gp. destruct (p_deferred (d_p s)); [|reflexivity]. cbn [negb].
+  rewrite b_gp. destruct (p_disp (d_p s) =? DISP_CANCELED); [reflexivity|].
   unfold rcfg_or_assert. rewrite bind_assoc, b_gp. destruct (p_rcfg (d_p s)); [|reflexivity].
   rewrite b_ret, b_gp, He. reflexivity.
 Qed.
